@@ -199,4 +199,4 @@ def main(tier=None, replay=None):
     ck.assumptions += ['flip-flop kinds are upper-case DFF (StilFile matches \'DFF\' case-sensitively)', 'unload strings over H/L/X; tests_loc judged exactly for fully specified 0/1 loads and inputs with a clock pulse in the capture call; with X/- among loads or inputs, every position whose expected value is definite must be exact and every other position must be X or - (TestsLocPartial)',
                        'the STIL renderer of the harness (trusted); TLC, JSON reader, projection']
     return ck.finish('seeded random circuits with 1..7 flip-flops in scrambled node order x 1-2 chains x marker placements x 1..4 patterns (with/without launch call '
-                     'and clock pulses) x shuffled signal groups; distinct by (circuit, STIL text)')
+                     'and clock pulses) x shuffled signal groups x flip-flop name pool x reuse histories (ports reordered, node indices reassigned); distinct by (circuit, STIL text)')
